@@ -6,6 +6,7 @@ NOTES = {
  'C06-r2b-m1': 'outside the statement: only the float utilisation order of equal-rank instances of DIFFERENT allocations changes (not judged, DESIGN 6/C06)',
  'C01-r4a-m1': 'unreachable: needs a stored state with an instance under two KNOWN servers, which the repaired master cannot produce (two-pass publication, ghosts removed at start-up)',
  'C14-r4d-m7': 'outside the quantifier: needs an injected EIO from os.stat (C14 ranges over allocate/release/collect sequences)',
+ 'C14-r8b-m4': 'outside the quantifier: needs two VipMgr pools with different networks sharing ONE vips directory (C14 ranges over the operations of owners on one pool; the network service creates one manager per directory)',
  'C07-r6a-m4': 'outside the statement: only the rank of the ONE instance that straddles the end of its reservation changes - C06 fixes the boosted rank for instances that stay within the reservation, and in the changed queue the evicting instance is ahead of the displaced one',
  'C08-r6b-m5': 'outside the statement: C08 says a frozen server keeps its instances EXCEPT those marked for unscheduling; it does not say a marked instance must go (the author of the change notes the same)',
 }
